@@ -124,7 +124,7 @@ def run_case(case):
     for src, tgt, flag, api in case["ops"]:
         obj = ts[src]()
         obj.flag = bool(flag)
-        signal.setitimer(signal.ITIMER_REAL, QUERY_LIMIT_S if TIMEOUTS[0] < 2 else 0.25)
+        signal.setitimer(signal.ITIMER_VIRTUAL, QUERY_LIMIT_S if TIMEOUTS[0] < 2 else 0.25)   # CPU time: immune to machine load
         try:
             if TIMEOUTS[0] >= 20:
                 raise QueryTimeout()
@@ -147,17 +147,17 @@ def run_case(case):
             o = {"k": "TraitError"}
         except QueryTimeout:
             TIMEOUTS[0] += 1
-            o = {"k": "other", "exc": "no answer within %d s" % QUERY_LIMIT_S}
+            o = {"k": "other", "exc": "no answer within %d s of CPU time" % QUERY_LIMIT_S}
         except Exception as e:  # noqa: BLE001
             o = {"k": "other", "exc": type(e).__name__}
         finally:
-            signal.setitimer(signal.ITIMER_REAL, 0)
+            signal.setitimer(signal.ITIMER_VIRTUAL, 0)
         obs.append(o)
     return {"ok": True, "sub": sub, "mro": mro, "obs": obs}
 
 
 def main():
-    signal.signal(signal.SIGALRM, _alarm)
+    signal.signal(signal.SIGVTALRM, _alarm)
     cases = dlib.load()
     dlib.dump([run_case(c) for c in cases])
 
